@@ -6,6 +6,10 @@ THEOREMS = [
     "C13_resolved_only_when_done",
     "C13_outputs_sound",
     "C13_no_contradiction",
+    "C13_same_outcome",
+    "C13_same_outcome_as_uninterrupted",
+    "C13_progress",
+    "C13_resolved_contract_recovered",
     "C13_dust_failback_lost_refuted",
     "C13_no_lost_progress_refuted",
 ]
@@ -141,7 +145,7 @@ def predicate(c, base):
     if not c["end"]["full"]:
         sig = "C13 stuck:other %s" % name
         msg = "never marked fully resolved; final database %s" % c["end"]
-        fails.append(("C13_same_outcome_at_terminal", sig, msg))
+        fails.append(("C13_progress", sig, msg))
     else:
         if co != bo:
             missing = bo - co
@@ -151,12 +155,12 @@ def predicate(c, base):
                 sig = "C13 lost:dust-failback-after-spurious-broadcast " + name
             else:
                 sig = "C13 outcome-differs " + name
-            fails.append(("C13_same_outcome_at_terminal", sig,
+            fails.append(("C13_same_outcome", sig,
                           "outputs missing w.r.t. uninterrupted run: %s" % sorted(missing)))
         br = {tuple(r) for r in base["end"]["rep"]}
         cr = {tuple(r) for r in c["end"]["rep"]}
         if br != cr:
-            fails.append(("C13_same_outcome_at_terminal", "C13 reports-differ " + name,
+            fails.append(("C13_same_outcome", "C13 reports-differ " + name,
                           "reports %s vs uninterrupted %s" % (sorted(cr), sorted(br))))
     return fails
 
@@ -177,6 +181,21 @@ def lost_progress(c):
                 if p is not None and q is not None and p < q:
                     n += 1
         prev = cur
+    return n
+
+
+def f1_window(c):
+    """Regression for the repaired finding C13-F1: number of stops of this run
+    that hit the window "contract persisted with resolved=true, not yet
+    deleted by log.ResolveContract" (the last database content before the
+    stop contains such a contract)."""
+    n = 0
+    prev = None
+    for it in c["trace"]:
+        if it["t"] == "snap":
+            prev = it["d"]
+        elif prev is not None and any(x[3] == 1 for x in prev["con"]):
+            n += 1
     return n
 
 
@@ -202,6 +221,16 @@ def run(ctx):
     sigs = {}
     reported = set()
     lost = 0
+    f1_runs = f1_term = 0
+    for c in rows:
+        if not c.get("err") and f1_window(c):
+            f1_runs += 1
+            f1_term += 1 if c["end"]["full"] else 0
+    if not ctx.replay and not f1_runs:
+        ctx.violation("harness_failed", "TestVerifRestart",
+                      {"why": "no run stopped between a final Checkpoint(resolved) and "
+                              "log.ResolveContract: the C13-F1 regression case was not exercised"},
+                      signature="harness-f1-window", failing_input=False)
     for c in rows:
         if c.get("err"):
             ctx.violation("harness_failed", "TestVerifRestart", {"case": c}, signature="harness-case",
@@ -209,7 +238,7 @@ def run(ctx):
             continue
         b = base[c["spec"]["name"]]
         if not c["crashes"] and not c["end"]["full"]:
-            ctx.violation("impl_violates_predicate", "C13_same_outcome_at_terminal",
+            ctx.violation("impl_violates_predicate", "C13_same_outcome",
                           {"case": c, "fails": ["uninterrupted run does not terminate"]},
                           signature="C13 base-not-terminal " + c["spec"]["name"])
             continue
@@ -277,6 +306,7 @@ def run(ctx):
         "spurious_own_force_close_runs": sum(
             1 for c in rows if not c["spec"]["userfc"] and any(o[0] == 4 for o in c["outs"])),
         "runs_not_terminal": sum(1 for c in rows if not c["end"]["full"]),
+        "f1_window_runs": f1_runs, "f1_window_runs_terminal": f1_term,
         "progress_regressions_observed": lost,
         "predicate_failures_by_class": sigs,
         "samples": [{"scenario": rows[0]["spec"]["name"], "crashes": rows[0]["crashes"]}],
